@@ -16,6 +16,7 @@
 // Second part (tree): stimer_* due rule for all (start, interval, now) in [-3,12]^3.
 #include "mc.hpp"
 #include <algorithm>
+#include <climits>
 #include <cstdint>
 #include <cstring>
 #include <igris/datastruct/stimer.h>
@@ -131,7 +132,8 @@ struct Fifo
 struct TimerModel : mc::Model
 {
     int N, NS;
-    int64_t horizon; // exec is not issued beyond this time (-1: unbounded); makes the universe finite
+    int64_t horizon; // exec is not issued beyond base + this (-1: unbounded); makes the universe finite
+    int64_t base = 0; // the clock starts here (2^31-3, 2^32-3, INT64_MAX-200: operands around the width boundaries)
     igris::timer_manager *mgr;
     Timer *tim[MAXN] = {nullptr, nullptr, nullptr, nullptr};
     int64_t now = 0;
@@ -171,9 +173,10 @@ struct TimerModel : mc::Model
         ref[t].script = script;
     }
 
-    explicit TimerModel(int n, int64_t horizon_ = -1, int ns = 0)
-        : N(n), NS(ns ? ns : (mc::thorough() ? (int)S_MAX : (int)S_UNPLAN_O2)), horizon(horizon_), ops(ops_for(n, NS))
+    explicit TimerModel(int n, int64_t horizon_ = -1, int ns = 0, int64_t base_ = 0)
+        : N(n), NS(ns ? ns : (mc::thorough() ? (int)S_MAX : (int)S_UNPLAN_O2)), horizon(horizon_), base(base_), ops(ops_for(n, NS))
     {
+        now = base;
 #ifndef C16_ASAN
         memset(arena, 0xDD, sizeof arena);
 #endif
@@ -451,7 +454,7 @@ struct TimerModel : mc::Model
             break;
         case K_EXEC:
         {
-            if (horizon >= 0 && now + p.a > horizon)
+            if (horizon >= 0 && now + p.a > base + horizon)
                 return false;
             if (!exec_terminates(now + p.a))
                 return false;
@@ -622,7 +625,7 @@ struct TimerModel : mc::Model
     {
         string k;
         k.reserve(24);
-        put(k, now, 2);
+        put(k, now - base, 2);
         string diff;
         for (int t = 0; t < N; t++)
         {
@@ -642,7 +645,8 @@ struct TimerModel : mc::Model
                 diff += mc::fmt("F%d:%lld", t, (long long)tim[t]->finish());
 #endif
             put(k, ref[t].script * 2 + pl, 1);
-            put(k, iv * 1024 + (st + 256), 2); // interval 0..3, start -256..767
+            // interval 0..3, start relative to the time base -254..767; a never-planned timer (start 0) -> -255
+            put(k, iv * 1024 + ((base != 0 && st == 0 ? -255 : st - base) + 256), 2);
             if (pl != ref[t].planned || st != ref[t].start || iv != ref[t].interval)
                 diff += mc::fmt("R%d:%d,%lld,%lld", t, (int)ref[t].planned, (long long)ref[t].start, (long long)ref[t].interval);
         }
@@ -1102,6 +1106,54 @@ static void wrap_checks()
 }
 
 // ================================================================ stimer (tree)
+// one (start, interval, now) triple through every stimer entry point
+static void stimer_case(long start, long interval, long now)
+{
+    bool due = now >= start + interval;
+    struct stimer_head t;
+    memset(&t, 0x5A, sizeof t);
+    // initialised but not planned: never due
+    stimer_init(&t, start, interval);
+    if (stimer_check(&t, now))
+        mc::violation("C16.stimer.unplanned_due", "stimer_init(%ld,%ld) then check(%ld) != 0", start, interval, now);
+    stimer_plan(&t, start, interval);
+    int c = stimer_check(&t, now) != 0;
+    if (c != due)
+        mc::violation(due ? "C16.stimer.due_not_reported" : "C16.stimer.early", "plan(%ld,%ld) check(%ld)=%d", start, interval, now, c);
+    if ((long)stimer_finish(&t) != start + interval)
+        mc::violation("C16.stimer.finish", "plan(%ld,%ld) finish=%ld", start, interval, (long)stimer_finish(&t));
+    // boundary of the same timer: one tick before the deadline and at the deadline
+    if (stimer_check(&t, start + interval - 1) || !stimer_check(&t, start + interval))
+        mc::violation("C16.stimer.boundary", "plan(%ld,%ld): check(deadline-1)=%d check(deadline)=%d", start, interval,
+                      stimer_check(&t, start + interval - 1), stimer_check(&t, start + interval));
+    // periodic use at a fixed time: one firing per elapsed period, re-armed at deadline + interval
+    long want = due ? (now - start) / interval : 0;
+    long fired = 0;
+    for (int guard = 0; guard < 64; guard++)
+    {
+        bool f = false;
+        STIMER_PERIODIC(&t, now) { f = true; }
+        if (!f)
+            break;
+        fired++;
+    }
+    if (fired != want)
+        mc::violation("C16.stimer.catch_up", "plan(%ld,%ld) polled at now=%ld fired %ld times, want %ld", start, interval, now, fired, want);
+    if ((long)stimer_finish(&t) != start + (want + 1) * interval)
+        mc::violation("C16.stimer.rearm_drift", "plan(%ld,%ld) after %ld firings finish=%ld want %ld", start, interval, want,
+                      (long)stimer_finish(&t), start + (want + 1) * interval);
+    // stimer_start: new start, same interval, planned
+    struct stimer_head u;
+    memset(&u, 0x5A, sizeof u);
+    stimer_init(&u, 100, interval);
+    stimer_start(&u, start);
+    if ((stimer_check(&u, now) != 0) != due)
+        mc::violation("C16.stimer.start", "init(100,%ld) start(%ld) check(%ld)=%d", interval, start, now, stimer_check(&u, now));
+    mc::outcome(mc::fmt("%d/%ld", c, fired));
+    if (due && want >= 2)
+        mc::nontrivial();
+}
+
 static void stimer_checks()
 {
     // first choice = (start, interval): 16*16 = 256 shards; now is the inner loop
@@ -1116,52 +1168,38 @@ static void stimer_checks()
     }
     mc::crash_context("C16.stimer.crash");
     for (long now = -3; now <= 12; now++)
-    {
-        bool due = now >= start + interval;
-        struct stimer_head t;
-        memset(&t, 0x5A, sizeof t);
-        // initialised but not planned: never due
-        stimer_init(&t, start, interval);
-        if (stimer_check(&t, now))
-            mc::violation("C16.stimer.unplanned_due", "stimer_init(%ld,%ld) then check(%ld) != 0", start, interval, now);
-        stimer_plan(&t, start, interval);
-        int c = stimer_check(&t, now) != 0;
-        if (c != due)
-            mc::violation(due ? "C16.stimer.due_not_reported" : "C16.stimer.early", "plan(%ld,%ld) check(%ld)=%d", start, interval, now, c);
-        if ((long)stimer_finish(&t) != start + interval)
-            mc::violation("C16.stimer.finish", "plan(%ld,%ld) finish=%ld", start, interval, (long)stimer_finish(&t));
-        // boundary of the same timer: one tick before the deadline and at the deadline
-        if (stimer_check(&t, start + interval - 1) || !stimer_check(&t, start + interval))
-            mc::violation("C16.stimer.boundary", "plan(%ld,%ld): check(deadline-1)=%d check(deadline)=%d", start, interval,
-                          stimer_check(&t, start + interval - 1), stimer_check(&t, start + interval));
-        // periodic use at a fixed time: one firing per elapsed period, re-armed at deadline + interval
-        long want = due ? (now - start) / interval : 0;
-        long fired = 0;
-        for (int guard = 0; guard < 64; guard++)
-        {
-            bool f = false;
-            STIMER_PERIODIC(&t, now) { f = true; }
-            if (!f)
-                break;
-            fired++;
-        }
-        if (fired != want)
-            mc::violation("C16.stimer.catch_up", "plan(%ld,%ld) polled at now=%ld fired %ld times, want %ld", start, interval, now, fired, want);
-        if ((long)stimer_finish(&t) != start + (want + 1) * interval)
-            mc::violation("C16.stimer.rearm_drift", "plan(%ld,%ld) after %ld firings finish=%ld want %ld", start, interval, want,
-                          (long)stimer_finish(&t), start + (want + 1) * interval);
-        // stimer_start: new start, same interval, planned
-        struct stimer_head u;
-        memset(&u, 0x5A, sizeof u);
-        stimer_init(&u, 100, interval);
-        stimer_start(&u, start);
-        if ((stimer_check(&u, now) != 0) != due)
-            mc::violation("C16.stimer.start", "init(100,%ld) start(%ld) check(%ld)=%d", interval, start, now, stimer_check(&u, now));
-        mc::outcome(mc::fmt("%d/%ld", c, fired));
-        if (due && want >= 2)
-            mc::nontrivial();
-    }
+        stimer_case(start, interval, now);
     mc::more_cases(15, 0);
+}
+
+// the same cube with operands around the width boundaries of the API type `long`: the clock of a running
+// system passes 2^31 ms after 24.8 days; start, now and interval each take values beyond 2^31 and 2^32
+static void stimer_large_checks()
+{
+    static const long P31 = 1L << 31, P32 = 1L << 32;
+    static const struct
+    {
+        const char *name;
+        long tbase, ibase; // start = tbase + s, interval = ibase + i, now = start0 + ibase + n
+    } fam[] = {{"clock around 2^31", P31 - 6, 0},      {"clock around 2^32", P32 - 6, 0},      {"clock near LONG_MAX", LONG_MAX - 200, 0},
+               {"clock around -2^31", -P31 - 6, 0},    {"interval around 2^31", 0, P31 - 6},   {"interval around 2^32", 0, P32 - 6},
+               {"clock and interval around 2^31", P31 - 6, P31 - 6}};
+    int c = mc::choose(16 * 16 * 7);
+    int f = c / 256, si = c % 256;
+    long s = si / 16 - 3, i = si % 16 - 3;
+    long start = fam[f].tbase + s, interval = fam[f].ibase + i;
+    mc::describe("stimer, %s: start=%ld interval=%ld now=start0+ibase-3..+12", fam[f].name, start, interval);
+    if (interval <= 0)
+    {
+        mc::count("excluded_interval_not_positive", 16);
+        mc::more_cases(15);
+        return;
+    }
+    mc::crash_context("C16.stimer.crash");
+    for (long n = -3; n <= 12; n++)
+        stimer_case(start, interval, fam[f].tbase + fam[f].ibase + n);
+    mc::more_cases(15, 15);
+    mc::nontrivial();
 }
 
 // ================================================================ stimer (bfs over op histories, fix-point)
@@ -1210,11 +1248,13 @@ struct StimerModel : mc::Model
     bool planned = false;
     long start = 0, interval = 1;
     const vector<SOp> &ops;
-    StimerModel() : horizon(mc::thorough() ? 30 : 16), ops(table())
+    long base;
+    explicit StimerModel(long base_ = 0) : horizon(mc::thorough() ? 30 : 16), base(base_), ops(table())
     {
         t = (struct stimer_head *)malloc(sizeof *t);
         memset(t, 0x5A, sizeof *t);
-        stimer_init(t, 0, 1); // initialised, not planned
+        now = start = base;
+        stimer_init(t, base, 1); // initialised, not planned
     }
     ~StimerModel() { free(t); }
     int nops() override { return (int)ops.size(); }
@@ -1248,7 +1288,7 @@ struct StimerModel : mc::Model
         switch (p.kind)
         {
         case S_ADVANCE:
-            if (now + p.a > horizon)
+            if (now + p.a > base + horizon)
                 return false;
             now += p.a;
             nm = "advance";
@@ -1351,6 +1391,11 @@ MC_INIT
 #else
     mc::add_check("stimer_due_rule", stimer_checks);
     mc::add_bfs("stimer_histories_fixpoint", [] { return std::unique_ptr<mc::Model>(new StimerModel); });
+    mc::add_check("stimer_due_rule_large_operands", stimer_large_checks);
+    // the same histories with the clock starting just below 2^31, 2^32 and near LONG_MAX
+    mc::add_bfs("stimer_histories_clock_2p31", [] { return std::unique_ptr<mc::Model>(new StimerModel((1L << 31) - 3)); });
+    mc::add_bfs("stimer_histories_clock_2p32", [] { return std::unique_ptr<mc::Model>(new StimerModel((1L << 32) - 3)); });
+    mc::add_bfs("stimer_histories_clock_near_max", [] { return std::unique_ptr<mc::Model>(new StimerModel(LONG_MAX - 200)); });
     o.depth_quick = C16_DEPTH_Q;
     o.depth_thorough = C16_DEPTH_T;
     mc::add_bfs("timer_manager_3", [] { return std::unique_ptr<mc::Model>(new TimerModel(3)); }, o);
@@ -1369,6 +1414,17 @@ MC_INIT
         mc::add_bfs("two_managers_2_timers", [] { return std::unique_ptr<mc::Model>(new TwoManagers); }, t2);
     }
     mc::add_check("unsigned_time_across_wrap", wrap_checks);
+    {
+        // timer_manager (int64_t) with the clock starting just below 2^31, 2^32 and near INT64_MAX: every
+        // operation of the alphabet sees operands on both sides of the boundary
+        mc::BfsOpts b;
+        b.depth_quick = 4;
+        b.depth_thorough = 5;
+        b.max_states = 40000000;
+        mc::add_bfs("timer_manager_3_clock_2p31", [] { return std::unique_ptr<mc::Model>(new TimerModel(3, -1, 0, (1LL << 31) - 3)); }, b);
+        mc::add_bfs("timer_manager_3_clock_2p32", [] { return std::unique_ptr<mc::Model>(new TimerModel(3, -1, 0, (1LL << 32) - 3)); }, b);
+        mc::add_bfs("timer_manager_3_clock_near_max", [] { return std::unique_ptr<mc::Model>(new TimerModel(3, -1, 0, INT64_MAX - 200)); }, b);
+    }
     mc::add_bfs("timer_manager_2_fixpoint",
                 [] { return std::unique_ptr<mc::Model>(new TimerModel(2, mc::thorough() ? C16_HORIZON_T : C16_HORIZON_Q, (int)S_UNPLAN_O2)); }, f);
 #endif
